@@ -49,7 +49,7 @@ ALLSPARSE = R('{<<"@", "csr">>, <<"*", "csc">>, <<"@", "arr">>}')
 
 def _cfg(name, scen, stmts, **kw):
     c = dict(name=name, Scenarios=scen, MaxStmts=stmts, ScalarOps=R("{}"), SparseOps=R("{}"), ScalarFmts={"int"},
-             SparseFmts={"csr"}, KindsFinal=ALLK, KindsMid=R("{}"), AllowT=False, AllowMM=False, AllowOver=False)
+             SparseFmts={"csr"}, KindsFinal=ALLK, KindsMid=R("{}"), AllowT=False, AllowMM=False, AllowOver=False, Variants=False)
     c.update(kw)
     return c
 
@@ -72,7 +72,8 @@ def configs(ctx):
     single   every slicer of the size box, every constructor form, optionally transposed, every operand kind
     pending  x op S for every documented left operand / operation on catalogue slicers
     multi    all programs of <= 3 statements over three catalogue slicers (chains, reuse, pending overwrites)
-    deep     4 statements (thorough)"""
+    deep     4 statements (thorough)
+    reuse    one slicer object applied to two different sparse / AD operands of equal shape and entry count"""
     mm = dict(KindsMid={"vec"}, AllowT=True, AllowMM=True, AllowOver=True)
     if ctx.quick:
         return [
@@ -80,6 +81,8 @@ def configs(ctx):
             _cfg("pending", _scen(SCENARIOS[:1]), 2, ScalarOps=ALLSCALAR, SparseOps=ALLSPARSE,
                  ScalarFmts={"int", "float", "np"}, SparseFmts={"csc"}),
             _cfg("multi", _scen(SCENARIOS[:1]), 3, ScalarOps={"*"}, SparseOps=R('{<<"@", "csr">>}'), KindsFinal={"vec", "ad"}, **mm),
+            _cfg("reuse", _scen([SCENARIOS[0], SCENARIOS[2]]), 2, KindsMid={"sp", "ad"}, KindsFinal={"sp", "ad"},
+                 SparseFmts={"csr", "csc"}, Variants=True),
         ]
     return [
         _cfg("single", R("SingleScenarios(4)"), 2, AllowT=True),
@@ -91,6 +94,9 @@ def configs(ctx):
              KindsFinal={"vec", "sp", "ad"}, **mm),
         _cfg("deep", _scen(SCENARIOS[:1]), 4, SparseOps=R('{<<"@", "csr">>}'), KindsFinal={"vec"},
              AllowMM=True, AllowOver=True),
+        _cfg("reuse", _scen(SCENARIOS), 2, KindsMid={"sp", "ad"}, KindsFinal={"sp", "ad"}, SparseFmts={"csr", "csc", "coo"},
+             AllowT=True, Variants=True),
+        _cfg("reuse3", _scen(SCENARIOS[2:3]), 3, KindsMid={"sp", "ad"}, KindsFinal={"sp", "ad"}, Variants=True),
     ]
 
 
